@@ -41,6 +41,11 @@ type c07State struct {
 	set       *vc.Set
 	T         map[hash.Hash]bool // in table files / journal of the live handle
 	persisted map[hash.Hash]bool // in the manifest (committed or added as a file)
+	// maybe: flushed but not committed before a close+reopen and currently invisible. Such chunks
+	// can become visible again (a journal keeps the un-rooted chunk records and attaches them as soon
+	// as the first commit of the new session adds the journal source), so the model neither counts
+	// on them nor treats them as gone; visibility is re-read before and after every action.
+	maybe map[hash.Hash]bool
 	root      hash.Hash
 	ops       []string
 	classes   map[string]bool
@@ -108,6 +113,44 @@ func (s *c07State) mem() map[hash.Hash]bool {
 
 func (s *c07State) node(i int) vc.Chunk { return s.set.Chunks[i] }
 
+// refreshMaybe promotes chunks of the maybe set that the live handle can see (again).
+func (s *c07State) refreshMaybe() {
+	if len(s.maybe) == 0 {
+		return
+	}
+	if _, err := s.st.Root(s.ctx); err != nil { // forces the lazy load of a journal store
+		s.fail("Root: %v", err)
+	}
+	for _, h := range verifSortedKeys(s.maybe) {
+		// visibility in the table files / journal only: a copy sitting in the memtable is pending
+		has, _, err := s.st.tables.has(h, nil)
+		if err != nil {
+			s.fail("tables.has: %v", err)
+		}
+		if has {
+			delete(s.maybe, h)
+			s.T[h] = true
+			s.classes["resurfaced_after_reopen"] = true
+		}
+	}
+}
+
+// uncertain reports whether any chunk of m references an address of the maybe set.
+func (s *c07State) uncertain(m map[hash.Hash]bool, root hash.Hash) bool {
+	if s.maybe[root] {
+		return true
+	}
+	for h := range m {
+		c, _ := s.set.Get(h)
+		for _, r := range c.Refs {
+			if s.maybe[r] {
+				return true
+			}
+		}
+	}
+	return false
+}
+
 // danglingIn lists chunks of m that reference an address outside m and T.
 func (s *c07State) danglingIn(m map[hash.Hash]bool) []hash.Hash {
 	var out []hash.Hash
@@ -147,6 +190,8 @@ func (s *c07State) closureMissing(root hash.Hash, vis func(hash.Hash) bool) (mis
 
 func (s *c07State) put(i int, label string) bool {
 	c := s.node(i)
+	s.refreshMaybe()
+	defer s.refreshMaybe()
 	prev := s.mem()
 	dang := s.danglingIn(prev)
 	err := s.st.Put(s.ctx, c.C(), c07GetAddrs)
@@ -156,7 +201,7 @@ func (s *c07State) put(i int, label string) bool {
 		if !errors.Is(err, ErrDanglingRef) {
 			s.fail("Put(node %d): unexpected error %v", i, err)
 		}
-		if len(dang) == 0 {
+		if len(dang) == 0 && !s.uncertain(prev, hash.Hash{}) {
 			s.fail("Put(node %d) was rejected with %v although every chunk in the memtable had all its references present", i, err)
 		}
 		s.rejected++
@@ -211,10 +256,13 @@ func (s *c07State) putClosure(i int, childrenFirst bool) {
 
 func (s *c07State) commit(i int) {
 	c := s.node(i)
+	s.refreshMaybe()
+	defer s.refreshMaybe()
 	prev := s.mem()
 	dang := s.danglingIn(prev)
 	vis := func(h hash.Hash) bool { return prev[h] || s.T[h] }
-	missing, size := s.closureMissing(c.Addr, vis)
+	// for the "must be rejected" direction an address of the maybe set counts as possibly present
+	missing, size := s.closureMissing(c.Addr, func(h hash.Hash) bool { return prev[h] || s.T[h] || s.maybe[h] })
 	last := s.root
 	ok, err := s.st.Commit(s.ctx, c.Addr, last)
 	now, rerr := s.st.Root(s.ctx)
@@ -247,7 +295,7 @@ func (s *c07State) commit(i int) {
 		if !errors.Is(err, ErrDanglingRef) {
 			s.fail("Commit(node %d): unexpected error %v", i, err)
 		}
-		if len(dang) == 0 && vis(c.Addr) {
+		if len(dang) == 0 && vis(c.Addr) && !s.uncertain(prev, c.Addr) {
 			s.fail("Commit(node %d) was rejected with %v although the root and every reference of every pending chunk were present", i, err)
 		}
 		if now != last {
@@ -294,12 +342,19 @@ func (s *c07State) addFile() {
 			cs = append(cs, c)
 		}
 	}
+	s.refreshMaybe()
+	defer s.refreshMaybe()
 	mem := s.mem()
 	var missing []hash.Hash
+	unsure := false
 	for _, c := range cs {
 		for _, r := range c.Refs {
 			if !in[r] && !s.T[r] && !mem[r] {
-				missing = append(missing, r)
+				if s.maybe[r] {
+					unsure = true
+				} else {
+					missing = append(missing, r)
+				}
 			}
 		}
 	}
@@ -334,7 +389,7 @@ func (s *c07State) addFile() {
 	}
 	if err != nil {
 		s.op("addFile(%d chunks)=ERR", len(cs))
-		if len(missing) == 0 {
+		if len(missing) == 0 && !unsure {
 			s.fail("AddTableFilesToManifest(%v) failed with %v although every reference of its chunks was present", idxs, err)
 		}
 		if now, _ := s.st.Root(s.ctx); now != s.root {
@@ -373,6 +428,7 @@ func (s *c07State) reopen() {
 				s.fail("%s was committed and is gone after close+reopen", vc.Short(h))
 			}
 			delete(s.T, h)
+			s.maybe[h] = true
 		}
 	}
 	s.op("reopen")
@@ -471,7 +527,7 @@ func (s *c07State) checkLive() {
 }
 
 func c07Case(rt *rapid.T, rec *vh.Recorder) {
-	s := &c07State{rt: rt, ctx: context.Background(), T: map[hash.Hash]bool{}, persisted: map[hash.Hash]bool{}, classes: map[string]bool{}}
+	s := &c07State{rt: rt, ctx: context.Background(), T: map[hash.Hash]bool{}, persisted: map[hash.Hash]bool{}, maybe: map[hash.Hash]bool{}, classes: map[string]bool{}}
 	s.backend = []string{"local", "local", "journal"}[rapid.IntRange(0, 2).Draw(rt, "backend")]
 	s.memSz = []uint64{8 << 10, 16 << 10, 64 << 10}[rapid.IntRange(0, 2).Draw(rt, "memtableSize")]
 	s.set = vc.Gen(rt, "dag", vc.Opts{Min: 4, Max: 40, MaxNear64k: -1, WithRefs: true})
@@ -546,7 +602,7 @@ func TestVerif_C07(t *testing.T) {
 		"AddTableFilesToManifest with dangling references is only tried on a store whose root is non-empty: an uninitialized store skips the reference check by design (documented in addTableFilesToManifest: push/clone into a new store)",
 		"which pending chunks a discarded memtable held is read from the unexported memtable (in-package peek) — only to keep the model's bookkeeping of un-acknowledged writes; every assertion is about API results",
 		"a rejection is required only when the closure of the new root (or a reference of an added file) is missing; when a dangling chunk sits in the memtable but is unreachable from the root either outcome is accepted",
-		"chunks flushed but not committed may or may not survive close+reopen; committed ones must")
+		"chunks flushed but not committed may or may not survive close+reopen, and may become visible again later (a journal keeps un-rooted chunk records and attaches them with the next commit): while such a chunk is invisible, predictions that depend on it are suspended in both directions; committed chunks must survive")
 	defer rec.Write(t)
 	vh.Check(t, "closure", 500, 1500, func(rt *rapid.T) { c07Case(rt, rec) })
 }
